@@ -559,6 +559,22 @@ Definition render (t : text) : res (list (Z * list Z)) :=
              ++ [(zlen (plain t), true, 0)] in
   render_go (plain t) (base (tmeta t) :: map sp_style (spans t)) (sort_stable ev_key evs) [].
 
+(* ---------- rich/highlighter.py: the Highlighter protocol ----------
+   Highlighter.__call__: str -> a new Text; Text -> text.copy(), then highlight() IN PLACE on the copy;
+   anything else -> TypeError.  RegexHighlighter.highlight = highlight_regex once per pattern (style
+   prefix = base_style); NullHighlighter = no pattern.  The executable patterns are "(?P<tK>[set]+)"
+   (maximal runs, style token K); proofs/TextOpsP4.v treats an arbitrary matcher as an oracle. *)
+Definition hl_pattern := (list Z * Z)%type.
+Definition regex_highlight (t : text) (pats : list hl_pattern) : text :=
+  fold_left (fun t p => highlight_runs t (fst p) (snd p)) pats t.
+Inductive hl_arg := HText | HStr (s : str) | HOther.
+Definition highlighter_call (fx : fixes) (pats : list hl_pattern) (a : hl_arg) (t : text) : res text :=
+  match a with
+  | HText => Ok (regex_highlight (copy fx t) pats)
+  | HStr s => Ok (regex_highlight (ctor fx s (default_meta 0) []) pats)
+  | HOther => Crash K_TypeError
+  end.
+
 (* ---------- operation language of the histories ---------- *)
 (* a Text given as an argument: Text(raw, style=base, spans=sps) *)
 Definition targ := (str * Z * list span)%type.
@@ -588,7 +604,8 @@ Inductive op :=
 | OStylize (st a : Z) (b : option Z)
 | OHighlightWords (ws : list str) (st : Z)
 | OHighlightRuns (set : list Z) (st : Z)
-| OCopyStyles (o : targ).
+| OCopyStyles (o : targ)
+| OHighlighter (pats : list hl_pattern) (a : hl_arg).   (* t := hl(t) / hl(str) / hl(not a text) *)
 
 Definition pick {A} (l : list A) (k : Z) : res A :=
   if k <? 0 then Crash K_IndexError
@@ -633,6 +650,7 @@ Definition apply (fx : fixes) (o : op) (t : text) : res text :=
   | OHighlightWords ws st => Ok (highlight_words t ws st)
   | OHighlightRuns set st => Ok (highlight_runs t set st)
   | OCopyStyles a => Ok (copy_styles t (arg_text fx a))
+  | OHighlighter pats a => highlighter_call fx pats a t
   end.
 
 (* an operation that raises leaves the text as it was (every raise above happens before any mutation) *)
@@ -650,7 +668,7 @@ Definition run (fx : fixes) (ops : list op) (t : text) : text := fold_left (step
 Definition inplace (o : op) : bool :=
   match o with
   | OAssemble _ _ | OJoinLine _ _ _ | OJoinSep _ | OSplit _ _ _ _ | ODivide _ _ | OIndex _ | OSlice _ _
-  | OCopy | OBlankCopy => false
+  | OCopy | OBlankCopy | OHighlighter _ _ => false
   | _ => true
   end.
 
